@@ -9,6 +9,7 @@ import (
 	"verif/internal/h"
 
 	"github.com/tuneinsight/lattigo/v6/core/rlwe"
+	"github.com/tuneinsight/lattigo/v6/multiparty"
 	"github.com/tuneinsight/lattigo/v6/ring"
 	"pgregory.net/rapid"
 )
@@ -336,4 +337,55 @@ func (p *uniPools) check(wantMean, wantVar float64, key string) error {
 		}
 	}
 	return nil
+}
+
+// dirtier fills receivers with earlier content before a call when the case asks for re-used receivers: a method that only
+// works on zeroed / freshly allocated outputs (or that reads its output argument) then produces a wrong result.
+type dirtier struct {
+	on  bool
+	rng *h.SplitMix
+	rQ  *ring.Ring // moduli of the polynomials to fill (maximum level)
+}
+
+func (d dirtier) poly(ps ...ring.Poly) {
+	if !d.on {
+		return
+	}
+	for _, p := range ps {
+		for i := range p.Coeffs {
+			q := d.rQ.SubRings[i].Modulus
+			for j := range p.Coeffs[i] {
+				p.Coeffs[i][j] = d.rng.Uint64() % q
+			}
+		}
+	}
+}
+
+func (d dirtier) polyMod(t uint64, p ring.Poly) {
+	if !d.on {
+		return
+	}
+	for i := range p.Coeffs {
+		for j := range p.Coeffs[i] {
+			p.Coeffs[i][j] = d.rng.Uint64() % t
+		}
+	}
+}
+
+func (d dirtier) bigs(v []*big.Int, bits uint) {
+	if !d.on {
+		return
+	}
+	for _, x := range v {
+		x.SetUint64(d.rng.Uint64())
+		x.Lsh(x, bits)
+		if d.rng.Uint64()&1 == 1 {
+			x.Neg(x)
+		}
+	}
+}
+
+func (d dirtier) refresh(sh multiparty.RefreshShare) multiparty.RefreshShare {
+	d.poly(sh.EncToShareShare.Value, sh.ShareToEncShare.Value)
+	return sh
 }
